@@ -29,6 +29,7 @@
 #include <assert.h>
 
 #include <xercesc/util/regx/RangeToken.hpp>
+#include <xercesc/util/XercesVerifHooks.hpp>
 #include <xercesc/util/regx/TokenFactory.hpp>
 #include <xercesc/util/IllegalArgumentException.hpp>
 #include <xercesc/util/XMLUniDefs.hpp>
@@ -835,6 +836,7 @@ void RangeToken::expand(const unsigned int length) {
 void RangeToken::doCreateMap() {
 
     assert(!fMap);
+    XERCES_VERIF_POINT(LazyEnter, this, VerifHooks::SiteRangeTokenMap, 0);
 
     int asize = MAPSIZE/32;
     fMap = (int*) fMemoryManager->allocate(asize * sizeof(int));//new int[asize];
